@@ -493,7 +493,7 @@ class GEstimationSNM:
         fmt = 'Method:           {:<24} No. Iterations:   {:<10}'
         print(fmt.format('Nelder-Mead', optimized_function.nit))
         fmt = 'Alpha values:     {:<24} Optimized:        {:<10}'
-        print(fmt.format(np.str(alpha_values), str(optimized_function.success)))
+        print(fmt.format(str(alpha_values), str(optimized_function.success)))
 
     @staticmethod
     def _print_closed_results():
